@@ -54,8 +54,22 @@ CLAUSES = {
 }
 
 
+CLAUSES.update({
+    "HandshakeOrder": ["C09"], "HandshakeStalled": ["C09"], "InitNotTrue": ["C09"], "InitHangs": ["C09"],
+    "InitEarlyFalse": ["C09"], "InitLate": ["C09"], "InitRaised": ["C09"], "InitTrueEarly": ["C09"],
+    "InitialisedWrong": ["C09"], "SnapshotMismatch": ["C10", "C09", "C14", "C19"],
+    "MissedNotification": ["C12"], "SpuriousNotification": ["C12", "C14"], "WrongNotificationId": ["C12"],
+    "NotifiedAfterUnsubscribe": ["C12"],
+    "InvalidNotRefused": ["C11", "C19"], "RefusedButSent": ["C11"], "ValidRefused": ["C11", "C19"], "CommandNotSent": ["C11", "C04"],
+    "CommandDuplicated": ["C11", "C02"], "WrongCommandFrame": ["C04", "C11", "C19"], "UnexplainedFrame": ["C01", "C04", "C09"],
+    "HeartbeatMissing": ["C08"], "HeartbeatOffSchedule": ["C08"], "HeartbeatNoReset": ["C08"], "SpuriousHeartbeatReset": ["C08"],
+    "RefreshMissing": ["C14"], "RefreshOrder": ["C14"], "PollMissing": ["C14"], "PollOffSchedule": ["C14"],
+    "StateAfterShutdown": ["C15"],
+})
+
+
 def props_of(clause):
-    return CLAUSES.get(clause, [])
+    return CLAUSES.get(clause.split(":")[0], [])
 
 
 # ---------------------------------------------------------------------------------------------
@@ -161,6 +175,45 @@ def lower_socket(trace, enc_of=None, blockers=()):
             out.append({"e": "block", "t": t})
         elif e == "release":
             out.append({"e": "release", "t": t})
+    return out
+
+
+def lower_client(trace, blockers=()):
+    """Whole-client traces: socket-level raw events plus the API events of ClientContract."""
+    out = []
+    meth = {}
+    for ev in trace:
+        e, t = ev["e"], ev["t"]
+        if e == "call" and ev.get("target", "socket") != "socket":
+            if ev.get("skipped"):
+                continue
+            m = ev["method"]
+            meth[ev["id"]] = m
+            tgt = ev["target"]
+            tk, _, tn = tgt.partition(":")
+            out.append({"e": "callapi", "t": t, "id": ev["id"], "target": tgt, "method": m, "args": ev.get("args", []),
+                        "kwargs": ev.get("kwargs", {}), "tk": tk, "tn": int(tn) if tn else 0})
+            if m == "init":
+                out.append({"e": "callopen", "t": t})
+            elif m == "shutdown":
+                out.append({"e": "callclose", "t": t})
+        elif e == "ret" and ev["id"] in meth:
+            m = meth[ev["id"]]
+            out.append({"e": "retapi", "t": t, "id": ev["id"], "res": ev["res"], "val": ev.get("val", []), "method": m})
+            if m == "shutdown":
+                out.append({"e": "retclose", "t": t})
+        elif e == "sub" and ev.get("target", "socket") != "socket":
+            out.append({"e": "subapi", "t": t, "who": ev["who"], "target": ev["target"], "kind": ev["kind"]})
+        elif e == "unsub" and ev.get("target", "socket") != "socket":
+            out.append({"e": "unsubapi", "t": t, "who": ev["who"], "target": ev["target"], "kind": ev["kind"]})
+        elif e == "cb":
+            out.append({"e": "cb", "t": t, "who": ev["who"], "id": ev["id"]})
+        elif e == "snapshot":
+            out.append({"e": "snapshot", "t": t, "model": ev["model"], "tag": ev.get("tag", "")})
+        elif e == "fault_armed":
+            out.append({"e": "fault", "t": t})
+        else:
+            out += lower_socket([ev], blockers=blockers)
     return out
 
 
